@@ -50,6 +50,9 @@ def render_members(members, ind="", stub=False):
         k = m["k"]
         if k == "func":
             lines += render_func(m["name"], m["params"], m["ret"], m["doc"], ind, stub, decorator=m.get("deco"))
+            for acc in m.get("accessors", []):  # property setter / deleter
+                params = [["self", None, False]] + ([["value", m["ret"], False]] if acc == "setter" else [])
+                lines += render_func(m["name"], params, "None", None, ind, stub, decorator=f"{m['name']}.{acc}")
         elif k == "overloads":
             for sig in m["sigs"]:
                 lines += render_func(m["name"], sig["params"], sig["ret"], None, ind, True, decorator="overload")
@@ -74,6 +77,8 @@ def render_members(members, ind="", stub=False):
                 lines.append(f"{ind}from {m['from']} import {m['name']}")
             else:
                 lines.append(f"{ind}from {m['from']} import {m['orig']} as {m['name']}")
+        elif k == "star":
+            lines.append(f"{ind}from {m['from']} import *")
         elif k == "raw":
             lines += [ind + ln for ln in m["lines"]]
         lines.append("")
